@@ -180,6 +180,38 @@ func runC11(r *run) {
 			}
 			r.seen(key("set-probe-each"))
 		}
+		// style 1c: the same, but only the logger whose mode is changed emits records — no other
+		// logger formats anything in between (the formatting context is pooled)
+		if len(seq) >= 1 && len(seq) <= 4 {
+			reset()
+			only := loggers[1]
+			for i, m := range seq {
+				only.rec.take()
+				only.l.Info("before the call", "i", i)
+				only.rec.take()
+				apply(only.l, m)
+				only.spec = specFmt(only.spec, m)
+				r.emit("C11 set 1 "+m.tok, "ok")
+				only.l.Info("probe\nsecond line\nthird\n", "k", 1)
+				w := only.rec.take()
+				shape := "none"
+				if len(w) == 1 {
+					shape = classify(w[0])
+				}
+				j, c := only.l.JSONMode(), only.l.ColorMode()
+				r.emit("C11 probe 1", b01(j)+" "+b01(c)+" "+shape)
+				if want := fmtNames[only.spec]; shape != want || j != (only.spec == 0) || c != (only.spec == 1) {
+					var toks []string
+					for _, l := range seq[:i+1] {
+						toks = append(toks, l.tok)
+					}
+					r.violate(violation{What: "format differs from the three-state machine (records of the same logger right before and right after a mode call)",
+						Input: map[string]any{"style": "set, one logger only", "sequence": toks}, Expected: map[string]any{"format": want},
+						Actual: map[string]any{"JSONMode": j, "ColorMode": c, "record_shape": shape}})
+				}
+			}
+			r.seen(key("set-one-logger"))
+		}
 		// style 2: With… chain starting at the root
 		reset()
 		cur := loggers[0]
